@@ -12,7 +12,7 @@ from props import gen_c17 as G
 class C17(Prop):
     id = "C17"
     title = "A program loaded from a saved binary equals what its source compiles to"
-    lean_modules = ["NV.C17.Props", "NV.C17.Witness"]
+    lean_modules = ["NV.C17.Props", "NV.C17.Witness", "NV.C17.SpecTests"]
     theorems = [
         "NV.C17.never_stale",
         "NV.C17.never_stale_transitive",
@@ -26,6 +26,8 @@ class C17(Prop):
         "NV.C17.switch_tables_sorted_after_patch",
         "NV.C17.patch_roundtrip",
         "NV.C17.all_string_switches_patched",
+        "NV.C17.layout_write_read_agree",
+        "NV.C17.layout_checksum_covers_file",
     ]
     witness_theorems = [
         "NV.C17.old_type_start_loop_wrong",
@@ -65,7 +67,10 @@ class C17(Prop):
             "tables, far-apart fake addresses, offsets above 32767), utimes, and system histories (generated program "
             "families with string switches, inheritance chains, includes, classes, function literals, save_types; steps "
             "compile / edit source / edit include / touch inherited / touch simul_efun + restart / nothing, distinct mtimes, "
-            "reload after every step with permuted string addresses); non-trivial = trace with >= 2 lines; distinct = "
+            "touch simul_efun without restart / damage (truncation, bit flip) / foreign (other magic, driver_id, config_id) / "
+            "binary moved to another name / failing compile first; pragma on top, between functions, last line, in an include, "
+            "toggled; chains with unsaved parents; every reload either in the same process or each in a fresh process; "
+            "reload after every step with permuted string addresses; every decision branch of the model is taken (histogram.decision_branches); non-trivial = trace with >= 2 lines; distinct = "
             "distinct canonical implementation trace")
     not_covered = ["byte-level layout of the .b file; damaged .b files are only explored (random truncations / bit flips under ASan, counts in the evidence): flipped bits inside the saved program_t can crash the driver (open exploration finding C17-damaged-binary-crash)",
                    "quickSort itself (modelled by its contract; the comparators are modelled exactly)",
@@ -103,6 +108,52 @@ class C17(Prop):
         need_lb("name", r"strcmp\s*\(name,\s*buf\)\s*!=\s*0")
         need_lb("sort", r"sort_function_table\s*\(p\)\s*;")
         need_lb("patch_in", r"patch_in\s*\(p,")
+        # the order of the tests in load_binary, as the model has it
+        order = ["READ_CHECKSUM", "check_times (mtime, name)", "strncmp (buf, magic_id", "driver_id != bin_driver_id",
+                 "config_id != bin_config_id", "check_times (mtime, simul_efun_path)", "check_times (mtime, iname)",
+                 "strcmp (name, buf)", "check_times (mtime, buf)", "find_object_by_name (buf)",
+                 "inherited_program_newer (mtime, ob->prog)", "sort_function_table (p)", "patch_in (p,"]
+        pos = [lb.find(x) for x in order]
+        if -1 in pos or pos != sorted(pos):
+            raise X.TieBroken("load_binary:order", "the tests of load_binary are no longer in the modelled order: %s" % list(zip(order, pos)))
+        need_lb("checksum", r"sum\s*!=\s*bin_sum")
+        if lb.index("READ_CHECKSUM") > lb.index("check_times (mtime, name)"):
+            raise X.TieBroken("load_binary:checksum-first", "the checksum is no longer verified before anything else is used")
+        # byte-level layout: the sections save_binary writes and load_binary reads, in order, with the width of each length field
+        sv = src[src.index("void save_binary"):src.index("static program_t *comp_prog;")]
+
+        def sections(text, word):
+            parts = re.split(r"\[%s_(\w+)\]" % word, text)
+            out = []
+            for k in range(1, len(parts), 2):
+                body = parts[k + 1]
+                m = re.search(r"&(bin_count|bin_size|sum|bin_sum)\b", body)
+                width = {"bin_count": 16, "bin_size": 32, "sum": 32, "bin_sum": 32}[m.group(1)] if m else 0
+                out.append((parts[k], width))
+            return out
+        wsec, rsec = sections(sv, "WRITE"), sections(lb, "READ")
+        if not wsec or not rsec:
+            raise X.TieBroken("binaries.c:layout", "section markers [WRITE_*] / [READ_*] not found")
+
+        def lean_list(xs):
+            return "[" + ", ".join('("%s", %d)' % x for x in xs) + "]"
+        layout = ["/-- C: the `[WRITE_*]` sections of save_binary in order, with the width in bits of the length field each one writes -/",
+                  "def writeLayout : List (String × Nat) := " + lean_list(wsec),
+                  "/-- C: the `[READ_*]` sections of load_binary in order, with the width of the length field each one reads -/",
+                  "def readLayout : List (String × Nat) := " + lean_list(rsec)]
+        # sort_function_table: the sentinel of the compressed index table and the statement order of the swap
+        sf = src[src.index("sort_function_table (program_t * prog)"):src.index("#define ALLOC_BUF")]
+        skip = need("sort_function_table.skip", r"sort_function_table \(program_t \* prog\).*?if\s*\(j\s*==\s*(\d+)\)\s*continue;").group(1)
+        if not re.search(r"for\s*\(i = 0; i < num - 1; i\+\+\)", sf):
+            raise X.TieBroken("sort_function_table:loop-bound", "swap loop bound `i < num - 1` not found")
+        if not re.search(r"cft = prog->function_table\[i\];\s*prog->function_table\[i\] = prog->function_table\[where\];.*?"
+                         r"sorttmp\[invtmp\[i\]\] = where;\s*invtmp\[where\] = invtmp\[i\];\s*prog->function_table\[where\] = cft;", sf, re.S):
+            raise X.TieBroken("sort_function_table:swap", "the five statements of the swap are no longer in the modelled order")
+        if not re.search(r"int ri = f_ov \+ i;", sf) or not re.search(r"function_offsets\[j\]\.def\.f_index = \(function_number_t\)inverse\[oldix\]", sf) \
+                or not re.search(r"function_offsets\[n_real \+ i\]\.def\.f_index = \(function_number_t\)inverse\[oldix\]", sf):
+            raise X.TieBroken("sort_function_table:remap", "the f_index remap loops no longer have the modelled shape")
+        layout += ["/-- C: `if (j == %s) continue;` in the first remap loop of sort_function_table -/" % skip,
+                   "def compressedSkip : Nat := %s" % skip]
         # the patch list: recorded for every string switch, under no other condition
         ic = open(os.path.join(E.REPO, "lib/lpc/program/icode.c")).read()
         m = re.search(r"if\s*\(([^{};]*)\)\s*\{\s*short\s+sw\s*=\s*\(short\)\s*\(addr\s*-\s*2\);\s*add_to_mem_block\s*\(A_PATCH,", ic, re.S)
@@ -118,7 +169,7 @@ class C17(Prop):
             'def magicId : String := "%s"' % mag,
             "/-- C: check_times() answers 0 (out of date) when `st.st_mtime %s mtime` -/" % op,
             "def checkTimesStrict : Bool := %s" % ("true" if op == ">" else "false"),
-        ])
+        ] + layout)
 
     # ---- stage C ------------------------------------------------------------
     def prepare(self, ctx):
@@ -160,48 +211,6 @@ class C17(Prop):
             ms.append(E.Case(c.id, c.lines + ["--"] + self.impl_cache.get(c.id, [])))
         return E.nvdrive(self.id, "model", E.cases_text(ms))
 
-    # ---- exploration: damaged .b files (robustness; observed under ASan, not modelled) ------------
-    def extra_checks(self, ctx, tier, rng):
-        n = 60 if tier == "quick" else 600
-        cases = []
-        for i in range(n):
-            c = G.sys_case(E.Rng(9000 + i % 7), "x%d" % i, nprog=2, script=[], mode="reloadp")
-            lines = [l for l in c.lines if not l.startswith("mtime /simul_efun.c 500")]
-            reload_line = [l for l in lines if l.startswith(("reload ", "reloadp "))][-1]
-            progs = [l.split()[1] for l in lines if l.startswith("prog ") and "save=1" in l]
-            if not progs:
-                continue
-            victim = rng.choice(progs)
-            if rng.chance(1, 2):
-                lines.append("corrupt %s trunc %d" % (victim, rng.below(1000)))
-            else:
-                lines.append("corrupt %s flip %d %d" % (victim, rng.below(1000) if rng.chance(2, 3) else rng.below(60),
-                                                         rng.choice([1, 2, 4, 8, 16, 32, 64, 128, 255])))
-            lines += ["now 5000", reload_line]
-            cases.append(E.Case("x%d" % i, lines))
-        res = E.run_harness(self.exe, self.conf, cases, ctx.rundir, args=["--timeout", "60"])
-        summ = {"cases": len(cases), "fell_back_to_compile": 0, "binary_still_used": 0, "lpc_error": 0, "crash": 0,
-                "crash_samples": []}
-        for c in cases:
-            out = self.canon(res.get(c.id, []))
-            blk = out[out.index("begin 2"):] if "begin 2" in out else out
-            victim = [l for l in c.lines if l.startswith("corrupt ")][0].split()[1]
-            if any(l.startswith("crash") for l in out):
-                summ["crash"] += 1
-                if len(summ["crash_samples"]) < 5:
-                    raw = [l for l in res.get(c.id, []) if l.startswith(("sanitizer", "crash"))]
-                    summ["crash_samples"].append({"corrupt": [l for l in c.lines if l.startswith("corrupt ")][0],
-                                                  "report": raw[:2]})
-            elif any(l.startswith(("err ", "loadfail")) for l in blk):
-                summ["lpc_error"] += 1
-            elif ("lb %s use" % victim) in blk:
-                summ["binary_still_used"] += 1
-            else:
-                summ["fell_back_to_compile"] += 1
-        self.exploration = summ
-        E.log("exploration of damaged binaries: %s" % {k: v for k, v in summ.items() if k != "crash_samples"})
-        return []
-
     # ---- generators ---------------------------------------------------------
     def boundary(self):
         return G.boundary()
@@ -211,7 +220,17 @@ class C17(Prop):
 
     def histogram(self, cases, impl):
         h = G.histogram(cases, impl)
-        h["exploration_damaged_binaries"] = getattr(self, "exploration", None)
+        # which branch of the decision model every load_binary call took
+        try:
+            ms = [E.Case(c.id, c.lines + ["--"] + impl.get(c.id, [])) for c in cases]
+            out = E.nvdrive(self.id, "reasons", E.cases_text(ms))
+            br = {}
+            for ls in out.values():
+                for l in ls:
+                    br[l] = br.get(l, 0) + 1
+            h["decision_branches"] = br
+        except Exception as e:  # noqa
+            h["decision_branches"] = "unavailable: %s" % e
         return h
 
 
